@@ -389,6 +389,39 @@ def _series_of_eval(parent: ast.FunctionDef, d: ast.FunctionDef) -> set:
     return out
 
 
+def _hermiticity_evidence(repo: Repo, call: ast.Call):
+    """For a call of a module-level package function P(value, ...): what does P compare its first parameter with?
+    -> ('adjoint' | 'transpose', function name, witness text) or None when P is unknown / shows neither."""
+    name = call.func.id if isinstance(call.func, ast.Name) else (call.func.attr if isinstance(call.func, ast.Attribute) else None)
+    if name is None:
+        return None
+    fns = [n for t in repo.trees.values() for n in t.body if isinstance(n, ast.FunctionDef) and n.name == name]
+    if len(fns) != 1 or not fns[0].args.args:
+        return None
+    a = fns[0].args.args[0].arg
+    adj = {f"{a}.conj().T", f"{a}.T.conj()", f"Dagger({a})", f"{a}.H", f"{a}.getH()", f"np.conj({a}).T", f"np.conj({a}.T)", f"{a}.conjugate().T",
+           f"{a}.T.conjugate()", f"{a}.adjoint()"}
+    tr = {f"{a}.T", f"{a}.transpose()", f"np.transpose({a})"}
+    seen_adj = seen_tr = None
+    for n in ast.walk(fns[0]):
+        t = norm(n) if isinstance(n, ast.expr) else None
+        if t in adj:
+            seen_adj = t
+        elif t in tr:
+            par = getattr(n, "_parent", None)
+            # `.T` that is immediately conjugated is part of an adjoint, not a bare transpose
+            if isinstance(par, ast.Attribute) and par.attr in ("conj", "conjugate"):
+                continue
+            if isinstance(par, ast.Call) and norm(par.func) in ("np.conj", "np.conjugate"):
+                continue
+            seen_tr = t
+    if seen_tr and not seen_adj:
+        return ("transpose", name, seen_tr)
+    if seen_adj and not seen_tr:
+        return ("adjoint", name, seen_adj)
+    return None
+
+
 def rule_adjoint_fill(rep: Report, repo: Repo):
     from .core import nested_defs
     from .e2 import _ordinal, adjoint_fill_compiler
@@ -411,6 +444,7 @@ def rule_adjoint_fill(rep: Report, repo: Repo):
         has_flag = any(isinstance(n, ast.Name) and n.id == "hermitian" for n in ast.walk(d))
         n_fill = 0
         bad = set()
+        undecided = []
         for herm in ((False, True) if has_flag else (True,)):
             for rel in "<=>":
                 def atom(n):
@@ -443,10 +477,27 @@ def rule_adjoint_fill(rep: Report, repo: Repo):
                         continue
                     n_fill += 1
                     if not (rel == ">" and herm):
+                        from .paths import eval_bool as _eb
+                        free = [t for t, _p in o.conds if _eb(t, atom) is None]
+                        if rel == ">" and free:
+                            # a fill of a lower block under a further condition (e.g. "this term is itself Hermitian"): decided only
+                            # when that condition is a package predicate whose body shows what it compares the value with
+                            verdicts = [_hermiticity_evidence(repo, c) for t in free for c in ast.walk(t) if isinstance(c, ast.Call)]
+                            wrong = [v for v in verdicts if v and v[0] == "transpose"]
+                            if wrong:
+                                bad.add((f"{q} fill condition: a lower block is filled by the adjoint when `{wrong[0][1]}` holds, but that predicate "
+                                         f"compares the value with its TRANSPOSE (`{wrong[0][2]}`)",
+                                         "a complex symmetric term passes the test and its lower block is replaced by the adjoint of the upper one", o.node))
+                                continue
+                            undecided.append(f"{q}: the adjoint fill is taken for hermitian={herm} under a condition that is not understood: "
+                                             f"`{norm(free[0])[:70]}`")
+                            continue
                         bad.add((f"{q} fill condition: the adjoint fill is taken for index[0] {rel} index[1], hermitian={herm}",
                                  "the adjoint fill applies to strictly lower blocks of a Hermitian series only (index[0] > index[1])", o.node))
         for key, detail, node in sorted(bad, key=lambda x: x[0]):
             rep.fail(RF, key, detail, repo.loc(mod, node))
+        if undecided and not bad:
+            raise AnalysisError(RF, undecided[0])
         if not bad:
             rep.ok(RF, f"{q} adjoint fill", f"{n_fill} fill path(s): taken only for index[0] > index[1] under hermitian, value "
                    f"Dagger(S[(index[1], index[0], *index[2:])]) with S the series being defined" if n_fill else
